@@ -97,6 +97,23 @@ def occurs(g, anchor, p, must=None):
     return rec(0)
 
 
+_FGP = None
+
+
+def wrapper_answer(mol, idx, sym, group):
+    global _FGP
+    from synrbl.SynMCSImputer.structure import CompoundSet
+    from synrbl.SynMCSImputer.rules import FunctionalGroupProperty
+    if _FGP is None:
+        _FGP = FunctionalGroupProperty()
+    c = CompoundSet().add_compound("C", src_mol=Chem.Mol(mol))
+    b = c.add_boundary(0, symbol="C", neighbor_index=idx, neighbor_symbol=sym)
+    try:
+        return bool(_FGP.check(b, group))
+    except Exception as ex:
+        return "RAISED " + type(ex).__name__
+
+
 def has_ring(mol):
     return mol.GetRingInfo().NumRings() > 0
 
@@ -168,14 +185,18 @@ def main():
                 cfg = fgu.functional_group_config[name]
                 real = bool(fgu.is_functional_group(m, name, idx))
                 renum = [bool(fgu.is_functional_group(pm_, name, order.index(idx))) for order, pm_ in perms]
+                # the entry point the merge / expand rule conditions use (rules.FunctionalGroupProperty.check on a
+                # boundary whose neighbour is this atom of the source molecule), same molecule in several atom orders
+                wrap = [wrapper_answer(m, idx, atom.GetSymbol(), name)] + \
+                       [wrapper_answer(pm_, order.index(idx), atom.GetSymbol(), name) for order, pm_ in perms]
                 refP = [occurs(g, idx, graph_of(pm_)) for pm_ in cfg.pattern]
                 refG = [occurs(g, idx, graph_of(gm)) for gm in cfg.groups]
                 refA = [occurs(g, idx, graph_of(am)) for am in cfg.anti_pattern]
-                if not real and not any(renum) and not any(refP):
+                if not real and not any(renum) and not any(refP) and not any(w is not False for w in wrap):
                     continue   # trivially consistent negatives are not logged (keeps the log small)
                 nfg += 1
                 e = {"ev": "fg", "smiles": Chem.MolToSmiles(m), "group": name, "atom": idx, "sym": atom.GetSymbol(),
-                     "real": real, "renum": renum, "refP": refP, "refG": refG, "refA": refA, "graphs": False,
+                     "real": real, "renum": renum, "wrap": wrap, "refP": refP, "refG": refG, "refA": refA, "graphs": False,
                      "in_ring": idx in ring_atoms or any(nb.GetIdx() in ring_atoms for nb in atom.GetNeighbors())}
                 ref = any(a_ and b_ for a_, b_ in zip(refP, refG)) and not any(refA)
                 if real != ref and ring_atoms and m.GetNumAtoms() <= 40:
